@@ -188,6 +188,8 @@ class StmtMixin:
             return (RAISE, ("reraise", "", s.lineno))
         e = s.exc
         name = None
+        if isinstance(e, ast.Call) and isinstance(e.func, ast.Name) and hasattr(st.locals.get(e.func.id), "exc_name"):
+            return (RAISE, (st.locals[e.func.id].exc_name, "", s.lineno))      # raise exctype(value) with a symbolic type
         if isinstance(e, ast.Call):
             name = ast.unparse(e.func)
         else:
@@ -317,6 +319,25 @@ class StmtMixin:
                     return None
                 if r[0] in (RETURN, RAISE):
                     return r
+            if s.orelse:
+                return self.exec_block(s.orelse, st, fr)
+            return None
+        if spec is None and isinstance(it, RangeV) and it.step == 1:
+            # small symbolic trip count: explore the iterations path by path (bounded; beyond the bound -> undecided)
+            i = 0
+            while True:
+                cur = z3.simplify(z3ify(it.lo) + i) if is_sym(it.lo) else it.lo + i
+                if not self.decide(st, z3ify(cur) < z3ify(it.hi)):
+                    break
+                if i >= 8:
+                    raise Undecided(f"for loop #{k} at line {s.lineno} in {fr.qual}: more than 8 iterations possible and no invariant")
+                self.assign_target(s.target, cur, st, fr)
+                r = self.exec_block(s.body, st, fr)
+                if r[0] == BREAK:
+                    return None
+                if r[0] in (RETURN, RAISE):
+                    return r
+                i += 1
             if s.orelse:
                 return self.exec_block(s.orelse, st, fr)
             return None
